@@ -192,4 +192,28 @@ THEOREM LemmaDifferenceStep ==
 <1>4. \A y \in SubStep(Ps, b) : y \in Ivl /\ Valid(y)
   BY <1>1 DEF SubStep
 <1> QED BY <1>3, <1>4
+
+\* ---- the probe argument (DESIGN.md 2.1), order part: membership in an interval depends only on how the
+\* version compares with the two endpoint values, so two versions that sit in the same position relative to
+\* every endpoint of a set of ranges are in the bounds of exactly the same ranges.  (That every position class
+\* has a representative in Probes(E), and the prerelease-gate part, are version-specific: InvProbesComplete.)
+SamePos(x, p, q) == (Lt(x, p) <=> Lt(x, q)) /\ (x = p <=> x = q)
+THEOREM LemmaProbeClasses ==
+  ASSUME NEW lo \in Bnd, NEW up \in Bnd, NEW p \in S, NEW q \in S,
+         lo.k # "unb" => SamePos(lo.v, p, q), up.k # "unb" => SamePos(up.v, p, q)
+  PROVE  In(lo, up, p) <=> In(lo, up, q)
+  BY Irrefl, Trans, Total DEF Bnd, Kinds, In, InLo, InUp, SamePos
+THEOREM LemmaProbeClassesUnion ==
+  ASSUME NEW R \in Seq(Ivl), NEW p \in S, NEW q \in S,
+         \A i \in DOMAIN R : /\ R[i].lo.k # "unb" => SamePos(R[i].lo.v, p, q)
+                             /\ R[i].up.k # "unb" => SamePos(R[i].up.v, p, q)
+  PROVE  InR(R, p) <=> InR(R, q)
+<1>1. \A i \in DOMAIN R : In(R[i].lo, R[i].up, p) <=> In(R[i].lo, R[i].up, q)
+  <2> TAKE i \in DOMAIN R
+  <2>1. R[i] \in Ivl
+    OBVIOUS
+  <2>2. R[i].lo \in Bnd /\ R[i].up \in Bnd
+    BY <2>1 DEF Ivl
+  <2> QED BY <2>2, LemmaProbeClasses
+<1> QED BY <1>1 DEF InR
 =============================================================================
